@@ -1,5 +1,6 @@
 import VibeProof.Model.SecIndex
 import VibeProof.Model.Order
+import VibeProof.Lemmas.SecIndex
 /-
 C02 — query results do not depend on which secondary indexes exist.
 
@@ -8,7 +9,7 @@ predicate; index order vs ORDER BY order; f64 normalisation).  The part of the p
 is about whole queries over twin databases is checked by the direct oracle of the harness.
 -/
 namespace VibeProof.C02
-open VibeProof VibeProof.SecIndex
+open VibeProof VibeProof.SecIndex VibeProof.SecIndexLemmas
 
 /-! ### numeric normalisation -/
 
@@ -167,6 +168,149 @@ theorem C02_open_lower_bound_skips_null (h : Value) (incHi : Bool) (ps : List Na
   · subst h1
     simp [Bound.lowerOK, kcmp, vcmp] at hok
   · exact ⟨kp, h1, hp⟩
+
+
+/-! ### T3: construction and maintenance keep the index equal to a rebuild
+
+The specification `Idx.UOk` and the theorems about it are those of the C15 index algebra
+(`Model/Index.lean`, `Lemmas/Index.lean`, imported read-only).  `abs` views the sorted list of this
+model in that algebra; the map equations `uGet_abs_insert` / `uGet_abs_remove` make the C15
+theorems apply to it.  Rows are represented by their (un-normalised) key columns. -/
+
+/-- the key under which a row is filed -/
+def keyOf (r : Row) : Idx.Key := lift (r.map normValue)
+
+/-- `CREATE INDEX` / `rebuild_indexes`: the built index is sorted and files every position under
+the normalised key of its row, once, and nothing else -/
+theorem C02_build_mirrors_rows (keys : List Key) :
+    Sorted (build keys) ∧ Idx.UOk (abs (build keys)) keyOf keys := by
+  refine ⟨sorted_build keys, ?_⟩
+  induction keys using Idx.snoc_induction with
+  | nil => exact Idx.UOk_nil _
+  | snoc ks k ih =>
+    rw [build_snoc]
+    exact UOk_congr _ _ _ _ (uGet_abs_insert _ _ _ (sorted_build ks)) (Idx.UOk_push _ keyOf ks k ih)
+
+/-- INSERT (`add_to_indexes_for_insert`): appending a row and inserting its position keeps the
+invariant -/
+theorem C02_insert_keeps_index (idx : Index) (rows : List Row) (r : Row)
+    (hs : Sorted idx) (h : Idx.UOk (abs idx) keyOf rows) :
+    Sorted (idx.insert (r.map normValue) rows.length) ∧
+      Idx.UOk (abs (idx.insert (r.map normValue) rows.length)) keyOf (rows ++ [r]) :=
+  ⟨sorted_insert _ _ _ hs,
+    UOk_congr _ _ _ _ (uGet_abs_insert _ _ _ hs) (Idx.UOk_push _ keyOf rows r h)⟩
+
+/-- UPDATE (`update_indexes_for_update`): patching the entry of the old and the new key keeps the
+invariant for the table with the row replaced -/
+theorem C02_update_keeps_index (idx : Index) (rows : List Row) (i : Nat) (old new : Row)
+    (hs : Sorted idx) (h : Idx.UOk (abs idx) keyOf rows) (hold : rows[i]? = some old) :
+    Sorted (idx.update old new i) ∧ Idx.UOk (abs (idx.update old new i)) keyOf (rows.set i new) := by
+  have hp := Idx.UOk_patch (abs idx) keyOf rows i old new h hold
+  unfold Index.update
+  by_cases heq : old.map normValue = new.map normValue
+  · have hk : keyOf old = keyOf new := by unfold keyOf; rw [heq]
+    simp only [heq, beq_self_eq_true, if_true]
+    refine ⟨hs, ?_⟩
+    simpa [Idx.uPatch, hk] using hp
+  · have hk : ¬ keyOf old = keyOf new := fun hh => heq (lift_inj _ _ hh)
+    have hb : (old.map normValue == new.map normValue) = false := by simpa using heq
+    simp only [hb, Bool.false_eq_true, if_false]
+    refine ⟨sorted_insert _ _ _ (sorted_remove _ _ _ hs), ?_⟩
+    simp only [Idx.uPatch, hk, if_false] at hp
+    apply UOk_congr _ _ _ _ _ hp
+    intro k
+    rw [uGet_abs_insert _ _ _ (sorted_remove _ _ _ hs), Idx.uGet_add, Idx.uGet_add,
+      uGet_abs_remove _ _ _ hs]
+    rfl
+
+/-- maintenance = rebuild: an index maintained through any history of inserts and updates files,
+under every key, the same positions (up to order) as an index built from the current rows — so
+index-driven lookups see exactly what a rebuild (the DELETE path) would give -/
+theorem C02_maintained_eq_rebuilt (idx : Index) (rows : List Row)
+    (h : Idx.UOk (abs idx) keyOf rows) (k : Idx.Key) :
+    (Idx.uGet (abs idx) k).Perm (Idx.uGet (abs (build rows)) k) :=
+  Idx.UOk_perm _ _ keyOf rows h (C02_build_mirrors_rows rows).2 k
+
+/-- non-vacuity: an index built from rows with a NULL, a duplicate and a 2^53 collision -/
+example : build [[.int 3], [.null], [.int 1], [.int 3]]
+    = [([.null], [1]), ([.int 1], [2]), ([.int 3], [0, 3])] := by decide
+
+/-! ### the multi-column walk -/
+
+/-- per key: the first-column checks of the multi-column loop are the SQL range predicate -/
+theorem C02_multi_check_eq_predicate (t : KTy) (x : Value) (lo hi : Option Value) (incLo incHi : Bool)
+    (hx : x.hasTy t = true)
+    (hlo : ∀ l, lo = some l → l.hasTy t = true ∧ l.isNull = false)
+    (hhi : ∀ h, hi = some h → h.hasTy t = true ∧ h.isNull = false) :
+    ((match lo with
+        | none => !(x == .null)
+        | some l => if incLo then vcmp x l != .lt else vcmp x l == .gt) &&
+      (match hi with
+        | none => true
+        | some h => if incHi then vcmp x h != .gt else vcmp x h == .lt))
+      = inRangeSql x ⟨lo, hi, incLo, incHi⟩ := by
+  by_cases nx : x.isNull = true
+  · have hxn : x = .null := by cases x <;> simp_all [Value.isNull]
+    subst hxn
+    cases lo with
+    | none => simp [inRangeSql, Value.isNull]
+    | some l =>
+      obtain ⟨_, nl⟩ := hlo l rfl
+      cases incLo <;> simp [inRangeSql, Value.isNull, vcmp_null_left l nl]
+  · have nx' : x.isNull = false := by simpa using nx
+    have hxne : (x == Value.null) = false := by cases x <;> simp_all [Value.isNull]
+    cases lo with
+    | none =>
+      cases hi with
+      | none => simp [inRangeSql, nx', hxne]
+      | some h =>
+        obtain ⟨th, nh⟩ := hhi h rfl
+        obtain ⟨o, ho⟩ := cmp_some t x h hx th nx' nh
+        simp only [inRangeSql, nx', ho, hxne, vcmp_of_cmp _ _ _ ho]
+        cases o <;> cases incHi <;> simp
+    | some l =>
+      obtain ⟨tl, nl⟩ := hlo l rfl
+      obtain ⟨o1, ho1⟩ := cmp_some t x l hx tl nx' nl
+      cases hi with
+      | none =>
+        simp only [inRangeSql, nx', ho1, vcmp_of_cmp _ _ _ ho1]
+        cases o1 <;> cases incLo <;> simp
+      | some h =>
+        obtain ⟨th, nh⟩ := hhi h rfl
+        obtain ⟨o2, ho2⟩ := cmp_some t x h hx th nx' nh
+        simp only [inRangeSql, nx', ho1, ho2, vcmp_of_cmp _ _ _ ho1, vcmp_of_cmp _ _ _ ho2]
+        cases o1 <;> cases o2 <;> cases incLo <;> cases incHi <;> simp
+
+/-- the multi-column branch returns exactly the positions filed under a key whose first column
+satisfies the range predicate (sound and complete; d41df521) -/
+theorem C02_multi_walk_is_filter (t : KTy) (idx : Index) (lo hi : Option Value) (incLo incHi : Bool)
+    (hidx : ∀ kp ∈ idx, ∃ x rest, kp.1 = x :: rest ∧ x.hasTy t = true)
+    (hlo : ∀ l, lo = some l → l.hasTy t = true ∧ l.isNull = false)
+    (hhi : ∀ h, hi = some h → h.hasTy t = true ∧ h.isNull = false) (p : Nat) :
+    p ∈ multiWalk idx lo hi incLo incHi
+      ↔ ∃ x rest ps, (x :: rest, ps) ∈ idx ∧ p ∈ ps ∧ inRangeSql x ⟨lo, hi, incLo, incHi⟩ = true := by
+  unfold multiWalk
+  rw [mem_positions]
+  constructor
+  · rintro ⟨⟨k, ps⟩, hmem, hp⟩
+    rw [List.mem_filter] at hmem
+    obtain ⟨hin, hok⟩ := hmem
+    obtain ⟨x, rest, hk, hx⟩ := hidx _ hin
+    simp only at hk
+    subst hk
+    refine ⟨x, rest, ps, hin, hp, ?_⟩
+    rw [← C02_multi_check_eq_predicate t x lo hi incLo incHi hx hlo hhi]
+    exact hok
+  · rintro ⟨x, rest, ps, hin, hp, hr⟩
+    refine ⟨(x :: rest, ps), ?_, hp⟩
+    rw [List.mem_filter]
+    refine ⟨hin, ?_⟩
+    obtain ⟨x', rest', hk, hx⟩ := hidx _ hin
+    simp only [List.cons.injEq] at hk
+    obtain ⟨h1, _⟩ := hk
+    subst h1
+    rw [← C02_multi_check_eq_predicate t x lo hi incLo incHi hx hlo hhi] at hr
+    exact hr
 
 /-! ### T4: index order versus ORDER BY order -/
 
